@@ -217,18 +217,22 @@ def xss_inputs(tier, salt):
         for body in vgen.all_strings(alpha, 6 if big else 4):
             items.append(vgen.b(opener) + body)
     items += list(vgen.all_bytes_in_context(vgen.HTML_BYTE_FRAMES if big else vgen.HTML_BYTE_FRAMES[:8]))
+    items += vgen.long_html_inputs(big)
     return list(vgen.dedup(items))
 
 
 def xss_trace_validate(sc, d, rep, vh, inputs, name="TraceXss"):
+    inputs = list(inputs)
+    vgen.rng("shuffle").shuffle(inputs)          # long inputs spread over the shards
     inp = sc.path(name + "-inputs.ndjson")
     write_ndjson(inp, [{"in": x} for x in inputs])
     tr = sc.path(name + "-trace.ndjson")
     run([vh, "xss-record", inp, tr], check=True, timeout=3000)
+    t0 = time.time()
     ev, ntr, rejects, st, gen = validate_traces(sc, d, "TraceXss.tla", "TraceXss.cfg", tr)
     rep.cov["states"] += st
     rep.cov["transitions"] += gen
-    rep.part(name, events=ev, traces=ntr, rejected=len(rejects), inputs=len(inputs))
+    rep.part(name, events=ev, traces=ntr, rejected=len(rejects), inputs=len(inputs), wall_s=round(time.time() - t0, 1))
     return ev, ntr, rejects, tr
 
 
@@ -530,6 +534,29 @@ def c13(tier, sc):
                 rep.violation("verdict(%r, data)=%s but with a '<'-free prefix, verdict(%r, data)=%s" % (
                     show(c["in"]), base["ctx"][0], show(w), r["ctx"][0]),
                     {"kind": "xss.pair", "rel": "prefix", "a": c["in"], "b": w})
+    # the '<'-free prefix may be long: 100 kB of text in front of a sample of the cases (real vs real)
+    r0 = vgen.rng("c13")
+    smp = r0.sample(cases, min(len(cases), 600 if big else 150))
+    longp = [[120] * 100000, [32] * 65537, ([39, 34, 96, 62, 61, 47] * 5000)]
+    flat2 = []
+    for c in smp:
+        flat2.append(c["in"])
+        for lp in longp:
+            flat2.append(lp + c["in"])
+    res2 = api_all(sc, vh, flat2)
+    for k in range(0, len(flat2), 1 + len(longp)):
+        base = res2[k]
+        if bad_result(base):
+            continue
+        for j in range(1, 1 + len(longp)):
+            rr = res2[k + j]
+            if bad_result(rr):
+                continue
+            nrel += 1
+            if rr["ctx"][0] != base["ctx"][0]:
+                rep.violation("verdict(%r, data)=%s but behind %d bytes of '<'-free text it is %s" % (
+                    show(flat2[k]), base["ctx"][0], len(longp[j - 1]), rr["ctx"][0]),
+                    {"kind": "xss.pair", "rel": "prefix", "a": flat2[k], "b": flat2[k + j][:50] + flat2[k + j][-200:], "long_prefix": len(longp[j - 1])})
     rep.part("real", cases=len(cases), relations=nrel)
     rep.cov["traces_validated_against_impl"] = nrel
     rep.cov["evaluations"] = nrel
@@ -1084,10 +1111,13 @@ def sqli_inputs(tier, salt):
     items += list(vgen.all_bytes_in_context(vgen.SQL_BYTE_FRAMES if big else vgen.SQL_BYTE_FRAMES[:9]))
     items += list(vgen.literal_bodies(6 if big else 4))
     items += keyword_frames(big)
+    items += vgen.long_sql_inputs(big)
     return list(vgen.dedup(items))
 
 
 def sqli_trace_validate(sc, d, rep, vh, inputs, name="TraceSqli"):
+    inputs = list(inputs)
+    vgen.rng("shuffle").shuffle(inputs)          # long inputs spread over the shards
     inp = sc.path(name + "-inputs.ndjson")
     write_ndjson(inp, [{"in": x} for x in inputs])
     tr = sc.path(name + "-trace.ndjson")
